@@ -843,8 +843,10 @@ pub fn gen_c18(tier: &str, rng: &mut Rng, emit: &mut Emit) {
         emit.case(2, l(vec![a(n), a(0)]));
     }
     if tier == "thorough" {
-        // a real body of 2^28 bytes (and just below): every framed object kind must refuse / accept it
-        for k in [(1usize << 28) - 16, 1 << 28] {
+        // real bodies on both sides of the 3-byte / 4-byte PkgLength boundary (2^20); a real body of 2^28 bytes is not materialised:
+        // it costs 20 GB per process in the extracted model -- that refusal is covered by the hook sweep above (the same
+        // create_pkg_length every framed object calls, theorem c07_call_sites) and by theorem c18_framed_object
+        for k in [(1usize << 20) - 16, 1 << 20, (1 << 22) + 3] {
             let big = l(vec![a(11), bytes(&vec![0xAB; k])]);
             emit.case(40, big.clone());
             emit.case(40, l(vec![a(42), bytes(b"ABCD"), l(vec![big])]));
